@@ -31,6 +31,31 @@ def main():
         sh("git -C %s worktree remove --force /tmp/confirm-shared" % REPO)
         sh("git -C %s worktree prune" % REPO)
         return
+    if len(sys.argv) > 2 and sys.argv[1] == "--recheck":
+        # seedtool.py --recheck <id> <props> [tier]: re-run checks on a stored seed after a strengthening
+        seed, props = sys.argv[2], sys.argv[3]
+        tier = sys.argv[4] if len(sys.argv) > 4 else "quick"
+        dest = os.path.join(VERIF, "seeded", seed)
+        meta = json.load(open(os.path.join(dest, "meta.json")))
+        rc, out = sh("git -C %s status --porcelain" % REPO)
+        assert out.strip() == "", "/repo is not clean: " + out
+        rc, out = sh("git -C %s apply %s" % (REPO, os.path.join(dest, "patch.diff")))
+        assert rc == 0, out
+        res = {}
+        try:
+            for pid in props.split(","):
+                t0 = time.time()
+                rc, out = sh("timeout %d ./check %s --tier %s 2>&1" % (3400 if tier == "thorough" else 900, pid, tier), cwd=VERIF)
+                sigs = [l.strip() for l in out.splitlines() if l.startswith("  ") and ":" in l][:4]
+                res[pid] = dict(exit=rc, first_signatures=sigs, wall_s=round(time.time() - t0, 1))
+                print("recheck %s %s: exit=%d %s" % (seed, pid, rc, sigs[:1]))
+        finally:
+            sh("git -C %s checkout -- ." % REPO)
+            rc, out = sh("git -C %s status --porcelain" % REPO)
+            assert out.strip() == "", "/repo not restored: " + out
+        meta["recheck_after_strengthening"] = dict(caught_by=[p for p, d in res.items() if d["exit"] == 1], checks=res)
+        json.dump(meta, open(os.path.join(dest, "meta.json"), "w"), indent=1)
+        return
     ap = argparse.ArgumentParser()
     ap.add_argument("seed")
     ap.add_argument("--patch", required=True)
